@@ -764,6 +764,72 @@ def clone_check(case):
 
 
 # ================================================================================================ clauses
+# ------------------------------------------------------------------------------------------------ hedging: call histories
+def hedging_history_cases(tier, seed):
+    names = list(hedging_ops())
+    picks = [names[0], names[-1]] if tier == "quick" else [names[0], names[len(names) // 2], names[-2], names[-1]]
+    for q in picks:
+        yield {"q": q, "reps": 1, "depth": 2 if tier == "quick" else 3}
+
+
+def _obj_digest(obj):
+    from mc.own import digest
+
+    parts = []
+    for k in sorted(vars(obj)):
+        v = vars(obj)[k]
+        if isinstance(v, np.ndarray):
+            parts.append(digest(v))
+        elif isinstance(v, (int, float, complex, str, bool)) or v is None:
+            parts.append(repr(v))
+    return "|".join(parts)
+
+
+def hedging_history_check(case):
+    """BFS over call histories of one QuantumHedging object (events = its four value methods): the object's arrays and the
+    operator passed by the caller never change, and every value equals the value from the initial state."""
+    from mc.history import explore
+    from toqito.nonlocal_games.quantum_hedging import QuantumHedging
+
+    Q0 = hedging_ops()[case["q"]]
+    holder = {}
+
+    def make():
+        holder["Q"] = Q0.copy()
+        return QuantumHedging(holder["Q"], case["reps"])
+
+    def apply(obj, ev):
+        v, exc = call(getattr(obj, ev))
+        if exc is not None:
+            return "EXC:" + exc_text(exc)
+        return None if v is None else round(float(np.real(v)), 4)
+
+    def invariant(obj, hist):
+        if not same_array(holder["Q"], Q0):
+            return "the operator passed by the caller was modified"
+        return None
+
+    def same(a, b, ev):
+        if isinstance(a, str) or isinstance(b, str) or a is None or b is None:
+            return a == b
+        return abs(a - b) <= 2 * SCS
+
+    events = [m for _, _, m in METHODS]
+    base = _obj_digest(make())
+    stats, bad = explore(make, events, apply, _obj_digest, invariant, same, case["depth"])
+    for b in bad:
+        return viol(f"hedging call history: {b['kind']} after {b.get('history')}: {b.get('detail', '')} "
+                    f"{b.get('after_history', '')} vs {b.get('from_initial', '')}", site="hedging:history:" + b["kind"], observed=jsonable_hist(b))
+    if stats["states"] != 1:
+        return viol("a value method changed the state of the QuantumHedging object", site="hedging:history:state", observed=stats)
+    return ok(True, obs=[stats["states"], stats["transitions"], stats["histories"]], states=stats["states"],
+              transitions=stats["transitions"], histories=stats["histories"])
+
+
+def jsonable_hist(b):
+    return {k: (v if isinstance(v, (str, int, float, list, type(None))) else repr(v)) for k, v in b.items()}
+
+
 CLAUSES = [
     Clause("C09.unentangled_exact", unent_cases, unent_check, tol="scs(1e-3) against an exact eigvalsh brute force",
            doc="unentangled_value == max over ALL pairs of answer functions (f,g) of lambda_max(sum pi V(f(x),g(y)|x,y)); game arrays "
@@ -781,6 +847,8 @@ CLAUSES = [
            alphabets=hedging_alphabets, weight=2.0,
            doc="QuantumHedging max/min primal/dual inside the certified bracket of the documented program (real and complex Q, 1-2 "
                "reps), primal = dual, max >= min, max_2 = max_1 * max_1', 0 <= min_2 <= min_1 * min_1', cos^2(pi/8) / sin^2(pi/8) / perfect hedging"),
+    Clause("C09.hedging_history", hedging_history_cases, hedging_history_check, tol="scs(2e-3)", chunk=1, weight=8.0, probe=1,
+           doc="BFS over call histories of one QuantumHedging object: arrays and caller's operator unchanged, values reproducible"),
     Clause("C09.cloning", clone_cases, clone_check, tol="scs(1e-3) against a certified bracket", chunk=2, probe=2,
            alphabets=clone_alphabets, weight=0.6,
            doc="optimal_clone primal and dual inside the certified bracket (reps 2: bracket^2 by multiplicativity), primal = dual, 1 / 3/4 / "
